@@ -47,6 +47,7 @@ def run(ctx, rep):
     rep.rule("R13.7", "the background server only goes through serve() and stop() joins its thread")
     rep.rule("R13.8", "requests issued concurrently are all transmitted: send-layer hand-off discipline (= R12.1-R12.5)")
     rep.rule("R13.9", "receive lock, condition, pending-request table and sequence counter are the constructors the hand-off relies on")
+    rep.rule("R13.10", "a result keeps its connection for as long as somebody may wait on it (the waiter tests the flag, then serves that connection)")
     rep.assume("schedules are not enumerated: only the lock/condition/publication discipline is decided",
                "Lock.release / Condition.notify_all do not raise when used as checked by R13.1/R13.4",
                "the documented caveat of serve_threaded (nested sync requests) is out of scope")
@@ -264,3 +265,7 @@ def run(ctx, rep):
     # ---- R13.8
     K.share(ctx, rep, "c12", lambda o: o.rule in ("R12.1", "R12.2", "R12.3", "R12.5"), "R13.8", floor=8)
     K.connection_state(ctx, rep, "R13.9", ["_recvlock", "_recv_event", "_request_callbacks", "_seqcounter"])
+    from . import hygiene as H
+    H.bound_once(ctx, rep, "R13.10", "rpyc.core.async_.AsyncResult", ["_conn"],
+                 "a waiter that saw 'not ready' calls self._conn.serve() next; if another thread publishes the reply in between and "
+                 "drops the connection the waiter fails with AttributeError instead of getting its reply")
